@@ -127,6 +127,14 @@ let () = iter_lines (fun line ->
         let inside = BinInt.Z.leb buffer block && BinInt.Z.leb (add (add block b) (zi 2)) (add buffer size1) in
         Printf.sprintf "%s %s %s %s %s" (sz (sub block buffer)) (sz v) (sz size1) (b2s inside) (b2s (int_of_z (sub buf' buffer) = 0)))
       (PoolLayout.new_block1_layout b a buffer))
+  | ["al1"; _; _; b; a; begin0] ->
+    let b = zs b and a = zs a and bg = zs begin0 in
+    print_endline (oc_str (fun (block, size) ->
+        let ld p = if int_of_z (sub p (add block b)) = 0 then sub block bg else zi 42405 in
+        let (addr, size') = PoolLayout.dealloc1 ld b a block in
+        let inside = BinInt.Z.leb bg block && BinInt.Z.leb (add block b) (add bg size) in
+        Printf.sprintf "%s %s %s %s" (sz (sub block bg)) (sz size) (b2s inside) (b2s (int_of_z (sub addr bg) = 0 && int_of_z (sub size' size) = 0)))
+      (PoolLayout.alloc1 b a bg))
   | ["nbuf"; bc; _; b; a; begin0] ->
     let c = zs bc and b = zs b and a = zs a and bg = zs begin0 in
     print_endline (oc_str (fun (((fb, bo), first), buffer) ->
